@@ -4,7 +4,7 @@
 From Coq Require Import ZArith NArith List String Bool.
 From CB Require Import Crypto.Alg Crypto.Transcript Crypto.SigmaGeneric Crypto.SigmaCodec
   Crypto.Sigma_dlog Crypto.Sigma_com_eq Crypto.Sigma_com_enc_eq Crypto.Sigma_com_mult Crypto.Sigma_aggregate_dlog
-  Crypto.Sigma_enc_trans Crypto.Sigma_com_lin Crypto.Sigma_com_eq_diff.
+  Crypto.Sigma_enc_trans Crypto.Sigma_com_lin Crypto.Sigma_com_eq_diff Crypto.Sigma_vcom_eq.
 Import ListNotations.
 Local Open Scope Z_scope.
 Local Open Scope bool_scope.
@@ -172,3 +172,23 @@ Definition X_enc_trans : xproto := {|
      && forallb (fun b => b) (map2 (x_relb X_com_eq) (et_e2 s) w2)
      && geq (ed_public (et_elg s))
             (hideZ (ed_c0 (et_elg s)) (ed_c1 (et_elg s)) sk (fadd (lin2 (K:=ZrF) (map fst w1)) (lin2 (K:=ZrF) (map fst w2)))) |}.
+
+(** VecComEq as the harness builds it: n generators, individual commitments at the even indices;
+    pubs = [comm] ++ comms(m) ++ gis(n) ++ [h; g_bar; h_bar] with m = ceil(n/2);
+    wit = xis(n) ++ [r] ++ ris(m); resp = sis(n) ++ [t] ++ tis(m) *)
+Fixpoint even_keys (i : N) (vals : list Z) : list (N * Z) :=
+  match vals with [] => [] | v :: vals' => (i, v) :: even_keys (i + 2)%N vals' end.
+Definition vc_n (extra : nat) (l : list Z) : nat := Nat.div (2 * (List.length l - extra)) 3.
+Definition vc_triple (l : list Z) : list Z * Z * list (N * Z) :=
+  let n := vc_n 1 l in (firstn n l, nz l n, even_keys 0%N (skipn (S n) l)).
+Definition X_vcom_eq : xproto := {|
+  xp := vcom_proto ZrCodec;
+  x_stmt := fun p => let n := vc_n 4 p in let m := Nat.div (n + 1) 2 in
+    @mkVcom ZrF ZrG (nz p 0) (even_keys 0%N (firstn m (tl p))) (firstn n (skipn (S m) p))
+            (nz p (1 + m + n)) (nz p (2 + m + n)) (nz p (3 + m + n));
+  x_wit := vc_triple; x_resp := vc_triple;
+  x_recover := fun s w c z => vcom_recover s w c z;
+  x_relb := fun s w => let '(xis, r, ris) := w in
+     geq (vc_comm s) (Gadd ZrG (msm (M:=ZrG) xis (vc_gis s)) (smul ZrG r (vc_h s)))
+     && list_geq (map snd (vc_comms s))
+          (map2 (fun (p q : N * Z) => hideZ (vc_gbar s) (vc_hbar s) (nth (N.to_nat (fst p)) xis 0) (snd q)) (vc_comms s) ris) |}.
